@@ -52,7 +52,7 @@ def run(c):
     built = kvlib.prebuild(c)
     ex = c.path("tb_ex.ndjson")
     cfg = c.pick("MC_Table_quick", "MC_Table_thorough")
-    res, conf, ne, ns = kvlib.gen_edges(c, "MC_Table", cfg, ex, workers=c.pick(5, 6), timeout=c.pick(600, 3000))
+    res, conf, ne, ns = kvlib.gen_edges(c, "MC_Table", cfg, ex, workers=c.pick(4, 5), timeout=c.pick(600, 3000))
     c.log("TLC: %d distinct states, %d transitions (%d printed, %d state lines, %.0fs)" % (res.distinct, res.generated, ne, ns, res.wall))
     c.guard("tlc_transitions", ne)
     built()
